@@ -29,7 +29,9 @@ from lemmas import matsum, lc_tables
 
 
 def deductive(tier="quick", seed=0):
-    d = run_tasks(L.tasks() + GL.tasks())
+    from contracts import lc_rmatrix as RMX
+
+    d = run_tasks(L.tasks() + GL.tasks() + RMX.tasks())
     d.obligations.extend(matsum.prove_sum_support2())
     d.obligations.extend(lc_tables.obligations())
     from lemmas import model_checks
@@ -55,6 +57,8 @@ def deductive(tier="quick", seed=0):
         "enumeration of the adjacent nodes) and itertools.combinations(l, 2) in lexicographic position order",
     ]
     d.assumptions += [
+        "_R_matrix: adjacency n x n, solution n x 2 x 2 (shapes from its only call site); dtype of the adjacency input int or float "
+        "(both checked: np.asarray / in-place arithmetic alias differently)",
         "local_comp_graph: the input is a simple graph on nodes 0..n-1 (symmetric 0/1 adjacency, zero diagonal) and 0 <= v < n",
         "_coeff_maker: both arguments are n x n integer matrices; decoding of a row number uses z3's Euclidean div/mod",
         "Graph.local_complementation: the Graph holds a graph state on nodes 0..n-1 (is_graph_state returns True), 0 <= node_id < n",
